@@ -50,6 +50,8 @@ def history(rng, length, nmax=6, p_measure=0.25):
         acts.append(("dump",))
         if rng.random() < 0.3:
             acts.append(("probs",))
+        if rng.random() < 0.2:
+            acts.append(("abs",))
     return acts
 
 
@@ -73,6 +75,11 @@ def histories(rng, tier):
     for i in range(40 if tier == "quick" else 600):
         hs.append((rng.randrange(1 << 30), history(rng, rng.choice([5, 20, 60]) if tier == "quick" else rng.choice([20, 100, 400]))))
     hs.append((rng.randrange(1 << 30), loop_history(rng, 200 if tier == "quick" else 2000)))
+    # "any history": also under the rayon threading models, worker counts that do not divide the buffer included
+    hs = regcheck.thread_mix(rng, hs, 0.3)
+    hs += regcheck.threaded_core(rng, tier, sample=False)
+    for k in regcheck.thread_counts()[1:3]:
+        hs.append((rng.randrange(1 << 30), [("new", 4), ("threads", k)] + loop_history(rng, 40 if tier == "quick" else 400, n=4)[1:]))
     return hs
 
 
@@ -92,7 +99,7 @@ if __name__ == "__main__":
     cs = [generic.Case(regcheck.hist_harness(s, a)[:400], None, None, None, kind="history") for s, a in hs]
     generic.finish(run, PROP, au, cs, n, dis,
                    "seeded random histories over apply (all gate kinds, controls, daggers, qft) / measure_mask / tensor products "
-                   "(both sides, *=) / set_num on 0..6 qubits, raw buffer dumped after every step and compared with the model "
+                   "(both sides, *=) / set_num on 0..6 qubits (30 % under num_threads(2|3|5|6|7), plus systematic threaded histories on 4-6 qubits), raw buffer dumped after every step, reported norm and probabilities, compared with the model "
                    "fed with the implementation's outcomes; plus a measure/re-superpose loop of 200 (2000) rounds",
                    assumptions=["measurement outcomes are taken from the implementation (seedable RNG hook) and fed to the model",
                                 "float thresholds of normalize (1e-15, 1e-9) are evaluated at binary64 in the model run and are "
